@@ -171,8 +171,20 @@ def run(ctx):
     n = ctx.budget(400, 15000)
     # corpus: the recorded witness of the known uid-type finding is re-executed on every run
     w = Policy(7, actions=['a'], subjects=['s'], resources=['r'], effect='allow')
-    wb = through('sqlite', w)
-    if wb is None or wb.uid != 7 or type(wb.uid) is not int:
+    try:
+        wb = through('sqlite', w)
+    except Exception as e:
+        wb = None
+        f = Failure('oracle', {'path': 'sqlite', 'policy': "Policy(7, actions=['a'], subjects=['s'], resources=['r'], effect='allow')"},
+                    '%s: %s' % (type(e).__name__, str(e)[:200]), None, 'writing / reading the policy back raised',
+                    'Vakt.C09.policy_roundtrip')
+        f.signature = 'raised:sqlite'
+        out.failures.append(f)
+    if wb is not None and not isinstance(wb, Policy):
+        wb = None
+    if wb is None:
+        pass
+    elif wb.uid != 7 or type(wb.uid) is not int:
         f = Failure('oracle', {'path': 'sqlite', 'policy': "Policy(7, actions=['a'], subjects=['s'], resources=['r'], effect='allow')"},
                     ['uid 7 -> %r' % (None if wb is None else wb.uid,)], None, 'uid type not preserved',
                     'Vakt.C09.policy_roundtrip_partial')
@@ -202,8 +214,9 @@ def run(ctx):
                 f.signature = 'raised:' + path
                 out.failures.append(f)
                 continue
-            if back is None:
-                f = Failure('oracle', desc, None, None, 'the stored policy cannot be read back', 'Vakt.C09.policy_roundtrip_partial')
+            if back is None or not isinstance(back, Policy):
+                f = Failure('oracle', desc, repr(back)[:100], None, 'the stored policy cannot be read back (got %s)'
+                            % type(back).__name__, 'Vakt.C09.policy_roundtrip')
                 f.signature = 'lost:' + path
                 out.failures.append(f)
                 continue
